@@ -81,8 +81,8 @@ ADDED = {
  "C12": " The matrix includes builder call histories (true-then-false, and ca_cert() before/between/after the flag calls): 992 cells. Root sets with two ca_cert() calls; the reduced matrix once more for both backends under a system trust store that cannot be loaded: 1624 cells.",
  "C13": " Also target histories (4-12 related targets in a row on one thread); the host must be spelled as given or in lower case. Later searches run with IPP_PORT, CUPS_SERVER, LANG, ... set; searches repeated under a trace-level logger and in a binary built without debug assertions.",
  "C14": " Also target histories (see C13). Later searches run with IPP_PORT etc. set; live: first octets on the wire (TLS ClientHello vs HTTP request line) per scheme, client and feature set (native-tls, rustls-only); repeated in a binary built without debug assertions.",
- "C15": " Also the log text rendered per parse with a trace-level logger installed, as a deterministic work measure. Client path: allocation on the calling thread while send() parses a small response followed by a 48/160 MiB document; raw-octet value families; allocation bounded under trace logging.",
- "C16": " Also every value-tag byte repeated in a run after values of known syntaxes. All 65536 codes also in a header that reaches both parsers in pieces; repeated in a binary built without debug assertions.",
+ "C15": " Also the log text rendered per parse with a trace-level logger installed, as a deterministic work measure. Client path: allocation on the calling thread while send() parses a small response followed by a 48/160 MiB document; raw-octet value families; allocation bounded under trace logging. Two-phase families (n large things, then n small things after them), fixed and generated.",
+ "C16": " Also every value-tag byte repeated in a run after values of known syntaxes. All 65536 codes also in a header that reaches both parsers in pieces; repeated in a binary built without debug assertions. Every status code decoded again under eight header (version, request-id) contexts.",
  "C17": " Also a response built with the opposite state/reasons and then updated with add(). Also the response parsed by both parsers from pieces of 1-7 octets; repeated under a trace-level logger and in a binary built without debug assertions.",
  "C18": " Also --option arguments without '=' among the options, and a printer that resets the connection in the middle of the upload. One case in six hands the document over through a named pipe or --file=/dev/stdin.",
  "C19": " Also iterator programs: generated sequences of next/nth/skip/take/step_by compared step by step with a slice iterator. Histories contain structural edits through groups_mut(); repeated under a trace-level logger and in a binary built without debug assertions.",
